@@ -1,0 +1,48 @@
+//go:build verif
+
+package storage
+
+// Verification hooks for C11: the unexported node-state and custodian writers, each in
+// its own write transaction (as writeUTXO runs them inside WriteSnapshot's transaction), and
+// the uncached custodian lookup.
+
+import (
+	"fmt"
+
+	"github.com/MixinNetwork/mixin/common"
+	"github.com/MixinNetwork/mixin/crypto"
+	"github.com/dgraph-io/badger/v4"
+)
+
+func (s *BadgerStore) VerifWriteNodeState(state string, signer, payee crypto.Key, tx crypto.Hash, timestamp uint64, genesis bool) error {
+	return s.snapshotsDB.Update(func(txn *badger.Txn) error {
+		switch state {
+		case common.NodeStatePledging:
+			return writeNodePledge(txn, signer, payee, tx, timestamp)
+		case common.NodeStateAccepted:
+			return writeNodeAccept(txn, signer, payee, tx, timestamp, genesis)
+		case common.NodeStateCancelled:
+			return writeNodeCancel(txn, signer, payee, tx, timestamp)
+		case common.NodeStateRemoved:
+			return writeNodeRemove(txn, signer, payee, tx, timestamp)
+		}
+		return fmt.Errorf("unknown node state %s", state)
+	})
+}
+
+func (s *BadgerStore) VerifWriteCustodianUpdate(snapTime uint64, ver *common.VersionedTransaction, genesis bool) error {
+	return s.snapshotsDB.Update(func(txn *badger.Txn) error {
+		err := writeTransaction(txn, ver)
+		if err != nil {
+			return err
+		}
+		utxo := &common.UTXOWithLock{UTXO: common.UTXO{Input: common.Input{Hash: ver.PayloadHash()}}}
+		return writeCustodianNodes(txn, snapTime, utxo, ver.Extra, genesis)
+	})
+}
+
+func (s *BadgerStore) VerifReadCustodianNoCache(ts uint64) (*common.CustodianUpdateRequest, error) {
+	txn := s.snapshotsDB.NewTransaction(false)
+	defer txn.Discard()
+	return readCustodianAccount(txn, ts, nil)
+}
